@@ -492,6 +492,36 @@ pub fn gen_contention(r: &mut Rng, cfg: &GenCfg) -> Ledger {
     out
 }
 
+/// Two securities disposed of on one day and bought back on one shared later day inside both
+/// thirty-day windows, where only one of them also sells on the buy-back day: any state the matcher
+/// keeps per acquisition date must be kept per security as well.
+pub fn gen_cross_contention(r: &mut Rng, cfg: &GenCfg) -> Ledger {
+    let (ay, am, ad) = *r.pick(ANCHORS);
+    let anchor = d(ay, am, ad);
+    let off = Duration::days(*r.pick(&[1i64, 3, 10, 20, 29, 30]));
+    let first_sells = r.chance(1, 2);
+    let dp = if cfg.fractional { 1 } else { 0 };
+    let mut out: Ledger = Vec::new();
+    for (n, tk) in ["AAA", "BBB"].iter().enumerate() {
+        let base = gen_qty(r, false) * Decimal::from(10);
+        out.push(GTx::new(anchor - Duration::days(r.range(1, 400)), tk, Kind::Buy, base, gen_price(r), gen_fee(r, cfg.fees)));
+        let sold = (base / Decimal::from(2 + r.below(3))).round_dp(dp).max(Decimal::ONE);
+        out.push(GTx::new(anchor, tk, Kind::Sell, sold, gen_price(r), gen_fee(r, cfg.fees)));
+        let back = (sold / Decimal::from(1 + r.below(2))).round_dp(dp).max(Decimal::ONE);
+        out.push(GTx::new(anchor + off, tk, Kind::Buy, back, gen_price(r), gen_fee(r, cfg.fees)));
+        if (n == 0) == first_sells {
+            let sq = (back / Decimal::from(1 + r.below(3))).round_dp(dp).max(Decimal::ONE);
+            out.push(GTx::new(anchor + off, tk, Kind::Sell, sq, gen_price(r), gen_fee(r, cfg.fees)));
+        }
+    }
+    if r.chance(1, 2) {
+        r.shuffle(&mut out);
+    } else {
+        out.sort_by_key(|t| t.date);
+    }
+    out
+}
+
 /// A consolidation (or split) by a ratio whose reciprocal does not terminate — 3, 6, 7, 9 — on a
 /// holding that divides exactly, followed by sales of all or part of the consolidated holding.
 /// Exact in decimal arithmetic as long as the code divides by the ratio (or multiplies by it).
